@@ -31,10 +31,14 @@
 #define CUR_KW 9
 #define TAGOF(k) ((uint64_t)(k)[1] | ((uint64_t)(k)[2] << 8) | ((uint64_t)(k)[3] << 16) | ((uint64_t)(k)[4] << 24) | \
                   ((uint64_t)(k)[5] << 32) | ((uint64_t)(k)[6] << 40) | ((uint64_t)(k)[7] << 48) | ((uint64_t)(k)[8] << 56))
+/* The user comparator of this unit is NOT bytewise: it ignores the top bit of the key byte, so two different byte
+   strings can name the same user key (like a case-insensitive comparator).  Everything in db_iter.c must go through
+   the comparator - a raw byte comparison disagrees with it. */
+#define UKID(b) ((int)((b) & 0x7f))
 /* internal-key order: user key ascending, then tag (seq<<8|type) DEscending */
 static int ikey_order(const uint8_t *a, size_t an, const uint8_t *b, size_t bn) {
   __CPROVER_assert(an == 9 && bn == 9, "internal iterator seek: target is a 9-byte internal key (user key + tag)");
-  if (a[0] != b[0]) return a[0] < b[0] ? -1 : 1;
+  if (UKID(a[0]) != UKID(b[0])) return UKID(a[0]) < UKID(b[0]) ? -1 : 1;
   if (TAGOF(a) > TAGOF(b)) return -1;
   if (TAGOF(a) < TAGOF(b)) return 1;
   return 0;
@@ -42,11 +46,11 @@ static int ikey_order(const uint8_t *a, size_t an, const uint8_t *b, size_t bn) 
 #define CUR_COMPARE ikey_order
 #include "contracts/it_cursor.h"
 
-/* user comparator: bytewise on 1-byte user keys */
+/* user comparator on 1-byte user keys: ignores the top bit */
 static int stub_ucompare(const ldb_comparator_t *c, const ldb_slice_t *x, const ldb_slice_t *y) {
   __CPROVER_assert(x->size == 1 && y->size == 1, "user comparator: operands are 1-byte user keys (never a slice of an unparsed internal key)");
   if (x->size != 1 || y->size != 1) return 0;
-  return (int)x->data[0] - (int)y->data[0];
+  return UKID(x->data[0]) - UKID(y->data[0]);
 }
 static const ldb_comparator_t stub_ucmp = { "stub", stub_ucompare, NULL, NULL, NULL, NULL };
 
@@ -60,7 +64,8 @@ uint32_t ldb_rand_uniform(ldb_rand_t *rnd, uint32_t n) { (void)rnd; return n - 1
 
 /* ------------------------------------------------- specification (ghost) */
 #define N_ (CUR[0].len)
-#define UK(i) (CUR_KEY[0][i][0])
+#define UK(i) UKID(CUR_KEY[0][i][0])
+#define UKBYTE(i) (CUR_KEY[0][i][0])
 #define SEQ(i) (TAGOF(CUR_KEY[0][i]) >> 8)
 #define TYP(i) ((int)(TAGOF(CUR_KEY[0][i]) & 0xff))
 uint64_t S_;    /* the snapshot */
@@ -99,7 +104,7 @@ static int shown(const ldb_dbiter_t *it) {
   int i, r = -1;
   if (it->direction == LDB_FORWARD) return live(CUR[0].pos) ? CUR[0].pos : -1;
   if (it->saved_key.size != 1) return -1;
-  for (i = 0; i < DB_MAXLEN; i++) if (live(i) && UK(i) == KB[0]) r = i;
+  for (i = 0; i < DB_MAXLEN; i++) if (live(i) && UK(i) == UKID(KB[0])) r = i;
   return r;
 }
 /* first index of the block of entries with the user key of entry i */
@@ -161,7 +166,7 @@ static void check_shows(ldb_dbiter_t *it, int want) {
   if (it->valid && want >= 0) {
     ldb_slice_t k = ldb_dbiter_key(it), v = ldb_dbiter_value(it);
     CHECK(shown(it) == want, "dbiter: positioned on the map neighbour (entries with seq > S ignored, newest <= S decides, tombstones hide the key)");
-    CHECK(k.size == 1 && k.data[0] == UK(want), "dbiter key(): the user key of that map entry");
+    CHECK(k.size == 1 && UKID(k.data[0]) == UK(want), "dbiter key(): the user key of that map entry (some spelling of it)");
     CHECK(v.size == 1 && v.data[0] == CUR_VAL[0][want], "dbiter value(): the value of the newest visible version");
   }
   CHECK(it->status == st0, "dbiter: status untouched when every internal key parses");
@@ -186,7 +191,7 @@ void h_db_seek(void) {
   setup(&it);
   tb = in_target; t.data = &tb; t.size = 1; t.alloc = 0;
   ldb_dbiter_seek(&it, &t);
-  check_shows(&it, map_first_ge(in_target));
+  check_shows(&it, map_first_ge(UKID(in_target)));
   CHECK(it.direction == LDB_FORWARD, "dbiter seek: direction forward");
   CANARY();
 }
